@@ -1,6 +1,7 @@
 import Driver.EngIE
 import Driver.EngDec
 import Driver.EngExp
+import Driver.EngAgg
 open Driver
 
 def dispatch (s : DState) (line : String) : DState × String :=
@@ -15,6 +16,9 @@ def dispatch (s : DState) (line : String) : DState × String :=
       let (b, o) := engBld s.bld args
       ({ s with bld := b }, o)
     else if e == "e2e" then engE2E s args
+    else if e == "agg" then
+      let (x, o) := engAgg s.agg args
+      ({ s with agg := x }, o)
     else if e == "exp" then
       let (x, o) := engExp s.exp args
       ({ s with exp := x }, o)
@@ -25,6 +29,12 @@ def dispatch (s : DState) (line : String) : DState × String :=
       | "decm" :: rest => chkDec false s rest
       | "c17" :: rest => (s, chkC17 rest)
       | "bld" :: rest => (s, chkBld rest)
+      | "aggc" :: rest =>
+        let (t, o) := chkAggC s.aggCorr rest
+        ({ s with aggCorr := t }, o)
+      | "agg" :: rest =>
+        let (t, o) := chkAgg s.aggSpec rest
+        ({ s with aggSpec := t }, o)
       | "e2e" :: rest =>
         let (d, o) := chkE2E s.e2eSpecDom rest
         ({ s with e2eSpecDom := d }, o)
